@@ -167,8 +167,8 @@ func (s *Sys) deliverRecv(dst *world.Chain, signer world.Account, msgs []sdk.Msg
 // relayerBalances sums the fee-token balances of every account that may relay.
 func (s *Sys) relayerBalances(c *world.Chain, t *transfer) int64 {
 	n := s.feeBalance(c, t, c.Accounts["r1"]).Int64() + s.feeBalance(c, t, c.Accounts["r2"]).Int64()
-	if a, ok := c.Accounts["tss"]; ok {
-		n += s.feeBalance(c, t, a).Int64()
+	if s.cfg.TSS {
+		n += s.feeBalance(c, t, c.Accounts["u2"]).Int64()
 	}
 	return n
 }
@@ -271,7 +271,7 @@ func (s *Sys) deliverAck(src *world.Chain, signer world.Account, msgs []sdk.Msg,
 	if dst == nil {
 		add("C02", "ack-accepted-from-unknown-chain", what)
 	} else if s.tss(src.Name, dst.Name) {
-		if am.Signer != src.Accounts["tss"].Acc.String() {
+		if am.Signer != src.Accounts["u2"].Acc.String() {
 			add("C06", "tss-secured-ack-accepted-from-another-signer", fmt.Sprintf("ack %s on %s signed by %s", what, short[src.Name], am.Signer))
 		}
 	} else {
